@@ -75,7 +75,7 @@ def _shard(name, shard, nshards, tier, seed):
     rng = np.random.default_rng([seed, shard, 12])
     ops, impls, sigs = [], [], []
     if name == 'bond_ops.retained_bond_indices':
-        n = (800 if tier == 'quick' else 8000) // nshards + 1
+        n = (800 if tier == 'quick' else 40000) // nshards + 1
         for k in range(n):
             if rng.random() < 0.6:
                 s = list(SPECTRA[int(rng.integers(len(SPECTRA)))])
@@ -97,7 +97,7 @@ def _shard(name, shard, nshards, tier, seed):
             sigs.append(('rbi', tuple(sorted(float(x) for x in s)), tol, len(r.get('idx', []))))
     else:
         from .c11 import gen_cases, gen_malformed
-        n = (1200 if tier == 'quick' else 12000) // nshards + 1
+        n = (1200 if tier == 'quick' else 60000) // nshards + 1
         cases = list(gen_cases(rng, n, 6 if tier == 'quick' else 9, big=(tier == 'thorough'))) if name == 'bond_ops.split_matrix_svd' \
             else list(gen_malformed(rng, (150 if tier == 'quick' else 1500) // nshards + 1))
         for A, q0, q1 in cases:
